@@ -318,11 +318,17 @@ def run_shard(shard):
                 # the clause presupposes that the round trip sample -> inverse -> base sample holds (C01, conditioning)
                 rt = am(np.where(np.isfinite(z2 - bsamp), z2 - bsamp, np.inf)) <= 1e-6 * (1 + am(bsamp))
                 rec.count("joint_logprob_gated_roundtrip_ill_conditioned", int((finite_s & ~rt).sum()))
-                ok = finite_s & rt & np.isfinite(lp2) & np.isfinite(lps) & (jt < 1e-3 * (1 + np.abs(lp2)))
+                # a failed round trip does not excuse the clause by itself (a wrong inverse on a well-conditioned map is exactly what
+                # makes log_prob(sample) differ from the joint value): such points stay in when log_prob is demonstrably insensitive at
+                # the sample (finite-difference estimate `sens`), with a tenfold tolerance
+                jt = np.where(rt, jt, 10 * jt + 1e-6 * (1 + np.abs(lp2)))
+                ok = finite_s & np.isfinite(lp2) & np.isfinite(lps) & (jt < 1e-3 * (1 + np.abs(lp2)))
+                rec.count("joint_logprob_compared_despite_failed_roundtrip", int((ok & ~rt).sum()))
                 # a joint log-probability that is NaN / +-inf although log_prob of the very same (finite, well-conditioned) sample is
                 # finite cannot be the log-density of that sample
-                nf = finite_s & rt & np.isfinite(lps) & ~np.isfinite(lp2) & (np.abs(lps) < 1e8)
-                rec.count("joint_logprob_finiteness_compared", int((finite_s & rt & np.isfinite(lps)).sum()))
+                rt0 = am(np.where(np.isfinite(z2 - bsamp), z2 - bsamp, np.inf)) <= 1e-6 * (1 + am(bsamp))
+                nf = finite_s & rt0 & np.isfinite(lps) & ~np.isfinite(lp2) & (np.abs(lps) < 1e8)
+                rec.count("joint_logprob_finiteness_compared", int((finite_s & rt0 & np.isfinite(lps)).sum()))
                 if nf.any():
                     i = int(np.where(nf)[0][0])
                     viol("joint.log_prob_nonfinite", f"sample_and_log_prob returned log-prob {lp2[i]!r} but log_prob(sample)={lps[i]!r} is finite "
